@@ -21,17 +21,18 @@ def register(db):
             ensures={
                 "none": "implies(params is None, result is None)",
                 "scheduled": "implies(params is not None and params.delay.next_execution_time is not None,"
-                             " result == params.delay.next_execution_time)",
+                             " result is not None and result == params.delay.next_execution_time)",
                 "first_run_until": "implies(params is not None and params.delay.next_execution_time is None"
-                                   " and until_ahead(params, now), result == params.delay.delay_until)",
+                                   " and until_ahead(params, now), result is not None and result == params.delay.delay_until)",
                 "first_run_periodic": "implies(params is not None and params.delay.next_execution_time is None"
-                                      " and periodic(params, now), now < result and result <= now + params.delay.defer_by"
+                                      " and periodic(params, now), result is not None and now < result and result <= now + params.delay.defer_by"
                                       " and (result - time_base(params)) % params.delay.defer_by == timedelta(0))",
                 "immediate": "implies(params is not None and params.delay.next_execution_time is None"
                              " and not until_ahead(params, now) and params.delay.defer_by is None, result is None)",
             },
             raises=[Raises("OverflowError", mode="may",
-                           when="params is not None and periodic(params, now) and not dt_in_range(now + params.delay.defer_by)")],
+                           when="params is not None and params.delay.next_execution_time is None"
+                                " and periodic(params, now) and not dt_in_range(now + params.delay.defer_by)")],
         )
     db.prop_meta("C06", not_decided=[
         "delivery latency of the successor (timing)", "cron-recurring jobs (croniter is not installed)",
